@@ -65,6 +65,25 @@ for i := 0; i < 40; i++ { r = format("%s|%d|%s|%v|%5.2f", s, x + i, s, [i, x], 1
 n := 0
 for i := 0; i < 60; i++ { n += rand.intn(10) >= 0 ? 1 : 0; n += rand.float() < 1.0 ? 1 : 0 }
 r := n + x`,
+	// iterates the member maps of imported modules - builtin, source and embedder-supplied: shared immutable constants
+	"moditer": `math := import("math")
+m := import("mod")
+st := import("st")
+n := 0
+for k, v in math { n += len(k) }
+for k, v in m { n += len(k) }
+for k, v in st { n += len(k) }
+for k in math { n += 1 }
+r := n + x`,
+	// leaves globals bound to literals (shared, de-duplicated constants): what the host then Sets on one object is that object's alone
+	"constreset": `total = 0
+label = "none"
+ratio = 1.5
+bonus := 0
+tag := "none"
+half := 1.5
+for i := 0; i < 3; i++ { bonus += i }
+r := string(bonus + total) + tag + label + string(half + ratio) + string(x)`,
 	// source and builtin modules, module function constants shared by all clones
 	"modules": `math := import("math")
 m := import("mod")
@@ -85,6 +104,9 @@ func concCompile(script string) (*tengo.Compiled, error) {
 	_ = s.Add("sv", "héllo wörld, an input string")
 	_ = s.Add("long", "0123456789012345678901234567890123456789")
 	_ = s.Add("arr", []interface{}{1, 2, 3})
+	_ = s.Add("total", 5)
+	_ = s.Add("label", "start")
+	_ = s.Add("ratio", 0.25)
 	// an immutable input holding a mutable child, and a container nested in a container
 	_ = s.Add("cfg", &tengo.ImmutableMap{Value: map[string]tengo.Object{"state": &tengo.Map{Value: map[string]tengo.Object{"hits": &tengo.Int{Value: 0}}}}})
 	_ = s.Add("nested", []interface{}{map[string]interface{}{"n": 0}})
@@ -198,7 +220,7 @@ func concHandle(raw []byte) map[string]interface{} {
 					}
 				}
 			}
-			idempotent := cs.Script == "strinput" || cs.Script == "stmod" || cs.Script == "fmtlimit" || cs.Script == "strindex" || cs.Script == "randmod" // r does not depend on earlier runs
+			idempotent := cs.Script == "moditer" || cs.Script == "constreset" || cs.Script == "strinput" || cs.Script == "stmod" || cs.Script == "fmtlimit" || cs.Script == "strindex" || cs.Script == "randmod" // r does not depend on earlier runs
 			if ran && !set && idempotent {
 				ref, _ := concCompile(cs.Script)
 				if e := ref.Run(); e == nil && fmt.Sprint(o.Get("r").Value()) != fmt.Sprint(ref.Get("r").Value()) {
@@ -209,6 +231,59 @@ func concHandle(raw []byte) map[string]interface{} {
 		for n, o := range objs {
 			if !written[n] && snapshotGlobals(o) != before[n] {
 				problems = append(problems, fmt.Sprintf("globals of %s changed although no Run/Set was issued on it: %s -> %s", n, before[n], snapshotGlobals(o)))
+			}
+		}
+		if rep == 0 && (cs.Script == "constreset" || cs.Script == "plain" || cs.Script == "moditer") {
+			// epilogue 1: after a run the host Sets new values on ONE object; every other object, run again, computes what a fresh
+			// object with that object's inputs computes
+			x := map[string]int{}
+			for n, o := range objs {
+				x[n] = o.Get("x").Int()
+				_ = o.Run()
+			}
+			_ = objs["c1"].Set("total", 100)
+			_ = objs["c1"].Set("label", "changed")
+			_ = objs["c1"].Set("ratio", 9.75)
+			_ = objs["c1"].Set("x", 77)
+			if cs.Script != "plain" {
+				for _, n := range []string{"orig", "c2"} {
+					_ = objs[n].Run()
+					ref, _ := concCompile(cs.Script)
+					_ = ref.Set("x", x[n])
+					_ = ref.Run()
+					if g, w := fmt.Sprint(objs[n].Get("r").Value()), fmt.Sprint(ref.Get("r").Value()); g != w {
+						problems = append(problems, fmt.Sprintf("after Set calls on c1 only, %s computes r=%v; a fresh object with its inputs computes r=%v", n, g, w))
+					}
+				}
+			}
+			// epilogue 2: GetAll against Set/Run on the same object, both in a tight loop: every call returns
+			var swg sync.WaitGroup
+			for k := 0; k < 3; k++ {
+				k := k
+				swg.Add(1)
+				go func() {
+					defer swg.Done()
+					for i := 0; i < 3000; i++ {
+						switch k {
+						case 0:
+							for _, v := range objs["c2"].GetAll() {
+								_ = v.Name()
+							}
+						case 1:
+							_ = objs["c2"].Set("x", i)
+						case 2:
+							_ = objs["c2"].IsDefined("r")
+							_ = objs["c2"].Get("x").Int()
+						}
+					}
+				}()
+			}
+			sdone := make(chan struct{})
+			go func() { swg.Wait(); close(sdone) }()
+			select {
+			case <-sdone:
+			case <-time.After(30 * time.Second):
+				return map[string]interface{}{"problems": []string{"GetAll / Set / Get in tight loops on one object did not finish (deadlock)"}}
 			}
 		}
 		if cs.Script == "fmtlimit" && rep == 0 {
